@@ -200,7 +200,8 @@ def rule_c(ctx: Context, R: Reporter):
                 for d in flow.reaching(m0.node, sn):
                     v = d.value
                     if isinstance(v, ast.Call) and (ctx.res.external_name(fi, v) or "") == "numpy.random.choice":
-                        pop = rs.resolve(v.args[0], d.node) if v.args else None
+                        pop0 = call_arg(v, 0, "a")
+                        pop = rs.resolve(pop0, d.node) if pop0 is not None else None
                         size = call_arg(v, 1, "size")
                         rep = call_arg(v, 2, "replace")
                         comp = pop is not None and isinstance(pop, ast.Subscript) and isinstance(pop.slice, ast.UnaryOp) and isinstance(pop.slice.op, ast.Invert) and mask_txt is not None and norm_text(pop.slice.operand) == mask_txt
